@@ -1350,7 +1350,10 @@ func (g *gen) stmtAttachment() bool {
 				case 1:
 					mv = fmt.Sprintf("%s(<- %s)", g.helper("pass_"+p.root.T.ID(), fmt.Sprintf("access(all) fun pass_%s(_ x: %s): %s { return <- x }", p.root.T.ID(), p.root.T.Ann(q), p.root.T.Ann(q))), p.expr)
 				default:
-					mv = fmt.Sprintf("[<- %s].removeFirst()", p.expr)
+					tmp := g.fresh("tmp")
+					g.emit("var %s: @[%s] <- [<- %s]", tmp, p.root.T.Src(q), p.expr)
+					mv = tmp + ".removeFirst()"
+					defer g.emit("destroy %s", tmp)
 				}
 				g.emit("let %s <- %s", name, mv)
 				g.st.vars = append(g.st.vars, &Var{Name: name, T: p.root.T, V: p.val, Live: true})
